@@ -50,6 +50,7 @@ def run(ctx):
             ctx.count(l.split()[0])
     ctx.differential(ENGINE, cases, nontrivial=nontrivial, oracle=oracle)
 
-LEVEL_TEXT = "placeholder"; LEVEL_NOTE = "placeholder"
 TECHNIQUE = "Lean 4 sortedness invariant over op lists + differential correspondence with DataReaderEntity"
-CLAIMED = False
+LEVEL_TEXT = "Kernel-checked Lean invariant: with BY_SOURCE_TIMESTAMP the whole store is sorted by source timestamp after ANY operation list (C21_sorted, by induction; ties and missing stamps included), hence each instance's samples and every read/take result are sorted (C21_sorted_per_instance, readOrTake_sorted); C21_insert_at_zero_counterexample keeps the pre-fix behaviour (D27) as a regression witness. Tied to DataReaderEntity by differential runs with out-of-order and tied stamps from several writers."
+LEVEL_NOTE = 'Trusted: Lean kernel (axioms audited: propext, Classical.choice, Quot.sound at most); the hand-written model Model/ReaderHist.lean of data_reader_entity.rs / user_defined_data_reader.rs (handles as Nat, times as total ns, Vec as List); the hist harness that drives the real DataReaderEntity<()> / UserDefinedDataReader through the cfg(dust_dds_verif) re-export and prints canonical lines; the Python oracle. The differential run validates the model on sampled op sequences only; the theorems are about the model.'
+DESIGN_REF = 'DESIGN.md section 5 C21'
